@@ -124,7 +124,9 @@ CHECKS = {
     "Kernel claim (relational): Interpreter::run_vm_to_completion (eval route) and Interpreter::process_vm_result (step route) executed "
     "from the same symbolic interpreter state on the same symbolic VmResult return the same Result<StepResult,_>, make the same calls with "
     "the same arguments in the same order and leave the same ledger, on every jointly feasible path pair; eval restores the environment "
-    "on every path like the step route does, or hands a suspended run over with the start environment remembered. Ten programs are "
+    "on every path like the step route does, or hands a suspended run over with the start environment remembered; the request list "
+    "prepare, eval and setup_vm_from_program hand to the host is the one dedupe_import_requests returned (or process_pending_modules' own). "
+    "Ten programs are "
     "run through eval and through prepare+step to the END with the same scripted host (results, request lists, order traffic compared) "
     "and one module is consumed as entry program and as host-supplied dependency - replay routes. Export finalisation as such, the C API "
     "and vm.run vs vm.step are outside the claim (a few concrete eval-vs-step programs are only a replay route).")),
